@@ -150,7 +150,8 @@ Definition lserializer := wcur -> outcome serr wcur * list event.
 Definition wr (o : option wcur) : outcome serr wcur := of_option EWrite o.
 
 (* the cursor a body serializer is started on: the frame header and the function field have been
-   written (Proofs/ServerProofs.v: frame_format_hdr shows this is what Model/Format.v does) *)
+   written (Proofs/ServerFormat.v: hdr_cursor_ok and frame_format_appends show that this is the cursor
+   Model/Format.v hands to the body) *)
 Definition hdr_cursor (l : link) (tx : N) (d : N) (fv : N) : outcome serr wcur :=
   match l with
   | LTcp => obind (wr (wr_u16_be (wnew buffer_capacity) tx)) (fun w1 =>
